@@ -119,6 +119,10 @@ def analyse_explicit_eq(ctx: Ctx, fn: FuncInfo, cls: ClassInfo, model: Dataclass
         if k == "isinst":
             res["foreign"] = True
             return
+        if isinstance(e, ast.Call) and isinstance(e.func, ast.Attribute) and e.func.attr in ("all", "any") \
+                and isinstance(e.func.value, ast.Compare):
+            res["partial"].append(ast.unparse(e))
+            return
         if isinstance(e, ast.Call):
             d = dotted_of(e.func) or ""
             if d == "all" and len(e.args) == 1 and isinstance(e.args[0], (ast.GeneratorExp, ast.ListComp)):
@@ -375,6 +379,7 @@ def rule_R5(ctx: Ctx) -> None:
     foreign = False
     parts: set[str] = set()
     unknown = []
+    weak: list[str] = []
     for st in fn.node.body:
         if isinstance(st, ast.Expr) and isinstance(st.value, ast.Constant):
             continue
@@ -392,12 +397,23 @@ def rule_R5(ctx: Ctx) -> None:
                     if x and y and x[1] == y[1] and {x[0], y[0]} == {"self", "other"}:
                         parts.add(x[1])
                         continue
+                    # same wrapper on both sides, e.g. len(self.mazes) == len(other.mazes): a weaker comparison
+                    l, r = v.left, v.comparators[0]
+                    if isinstance(l, ast.Call) and isinstance(r, ast.Call) and ast.unparse(l.func) == ast.unparse(r.func) \
+                            and len(l.args) == 1 and len(r.args) == 1:
+                        x = _self_other_field(l.args[0], a, b, None)
+                        y = _self_other_field(r.args[0], a, b, None)
+                        if x and y and x[1] == y[1]:
+                            weak.append(ast.unparse(v))
+                            continue
                 unknown.append(ast.unparse(v))
         else:
             unknown.append(ast.unparse(st)[:80])
-    slot = {"foreign_type_guard": foreign, "compared": sorted(parts), "unrecognised": unknown}
+    slot = {"foreign_type_guard": foreign, "compared": sorted(parts), "weaker_comparisons": weak, "unrecognised": unknown}
     exp = "NotImplemented/False for foreign types, otherwise cfg == cfg and mazes == mazes"
-    if unknown:
+    if weak and not {"cfg", "mazes"} <= parts:
+        ctx.violation(fn, slot, exp, "a component is compared only through a weaker function of it (e.g. its length)")
+    elif unknown:
         ctx.unknown(fn, slot, exp, "unfamiliar shape")
     else:
         ctx.judge(fn, foreign and parts == {"cfg", "mazes"}, slot, exp)
